@@ -49,7 +49,8 @@ func (f *Footer) Encode() ([]byte, error) {
 	if w.Error() != nil {
 		return nil, w.Error()
 	}
-	return buf.Bytes(), nil
+	// the buffer goes back to the pool when this function returns, the caller gets its own copy
+	return bytes.Clone(buf.Bytes()), nil
 }
 
 func (f *Footer) Decode(footer []byte) error {
